@@ -112,3 +112,4 @@ META['C10'] = dict(level='other', level_text='', level_note='', explanation='wip
 META['C15'] = dict(level='other', level_text='', level_note='', explanation='wip', assumptions=[], technique=TECH)
 META['C13'] = dict(level='other', level_text='', level_note='', explanation='wip', assumptions=[], technique=TECH)
 META['C14'] = dict(level='other', level_text='', level_note='', explanation='wip', assumptions=[], technique=TECH)
+META['C19'] = dict(level='other', level_text='', level_note='', explanation='wip', assumptions=[], technique=TECH)
